@@ -225,10 +225,26 @@ def greedyScan (q : Nat → Rat) : Nat → Rat × Nat
     else if r.1 < q (n+1) then (q (n+1), 1)
     else r
 
-/-- one row of the policy matrix -/
-def greedyRow (A : Nat) (q : Nat → Rat) (a : Nat) : Rat :=
+/-- one row of the policy matrix, as found: the ties are counted while the maximum is still moving and the second pass hands
+    `1/count` to everything `checkEqualGeneral` to the final maximum -/
+def greedyRowScan (A : Nat) (q : Nat → Rat) (a : Nat) : Rat :=
   let r := greedyScan q (A - 1)
   if checkEqualGeneral (q a) r.1 then 1 / ((r.2 : Nat) : Rat) else 0
+
+/-- number of i < n with p i -/
+def countTo : Nat → (Nat → Bool) → Nat
+  | 0, _ => 0
+  | n+1, p => countTo n p + (if p n then 1 else 0)
+
+/-- one row of the policy matrix, repaired form (fixes/C01-3): the true maximum first (`if (q_[aa] > max) max = q_[aa]`), then the
+    number of entries `checkEqualGeneral` to it, then `1/count` on exactly those entries -/
+def greedyRowMax (A : Nat) (q : Nat → Rat) (a : Nat) : Rat :=
+  let mx := maxTo (A - 1) q
+  if checkEqualGeneral (q a) mx then 1 / ((countTo A (fun i => checkEqualGeneral (q i) mx) : Nat) : Rat) else 0
+
+/-- `QGreedyPolicyWrapper::getPolicy`, whichever of the two shapes the translator found in the source -/
+def greedyRow (A : Nat) (q : Nat → Rat) (a : Nat) : Rat :=
+  if AITB.Gen.C01.greedyTrueMaxFirst then greedyRowMax A q a else greedyRowScan A q a
 
 def greedyPolicy (S A : Nat) (q : Mat) : Mat := mkMat S A (fun s => greedyRow A (q.get s))
 
